@@ -23,12 +23,23 @@ VIOLATION: a connection the model says is revoked still answers pings (`revoked_
 connection the model says is untouched does not (`bystander_lost`).  The return value of `disconnect`
 is recorded but not judged (the property does not speak about it).
 
-Genuine defect found (known finding C08_revoke_before_register): every word in which the disconnect
-falls between the target's admit and register steps ends with the target still served.
+Genuine defect found (known finding C08_revoke_before_register, open): every word in which the
+disconnect (by id or by endpoint) falls between the target's admit and register steps ends with the
+target still served: `disconnect` returned false, pings are answered, the bystander's datagram is
+delivered, no on_disconnect (20 of the 40 quick words).
 
-Mutation self-test (2026-09-22): `Clients::disconnect` made to skip `start_shutdown()` for inactive
-duplicates / `disconnect(.., Some(id))` cancelling nothing -> VIOLATION revoked_still_served with
-window=registered (a different signature than the known finding); undone -> exit 0 + KNOWN-FINDING.
+Proposed fix (proposed_fixes/C08.diff, not applied): `Clients::announce(endpoint, connection_id)`
+called by `Inner::accept` before `authorize_with` records the admitted-but-unregistered connection
+(RAII handle removes it on every exit path); `disconnect` marks matching announced connections under
+the same DashMap entry lock `register` takes, and `register` starts the new client already shut down
+if it was marked.  Exact (per connection id), leak-free, no behaviour change for embedders that do
+not announce.  It adds a small public API (`announce`, `Announced`), so it is a maintainer decision:
+the finding stays open until the coordinator applies it.  Verified 2026-09-22: with the diff applied
+this check ends with 40 evaluations, 0 known-finding hits, exit 0 (and C07 still passes); undone.
+
+Mutation self-test (2026-09-22): `Clients::disconnect(.., Some(id))` finds the client but no longer
+calls `start_shutdown()` -> VIOLATION kind=revoked_still_served window=registered by=id (a different
+signature than the known finding, which is still reported as KNOWN-FINDING); undone -> exit 0.
 """
 import json
 
